@@ -80,9 +80,23 @@ class InjectedInterrupt(BaseException):
     """... or an interrupt that is not an Exception (what Ctrl-C / SystemExit inside a plug-in looks like)."""
 
 
+class InjectedValueError(ValueError):
+    """a plug-in failing with a ValueError (numpy shape / domain errors are of this type)"""
+
+
+class InjectedKeyError(KeyError):
+    pass
+
+
+INJECTED_TYPES = (Injected, InjectedValueError, InjectedKeyError)
+
+
 def injected(at: str):
     rec = REC
-    return InjectedInterrupt(at) if rec is not None and rec.script.get("fault_base") else Injected(at)
+    if rec is not None and rec.script.get("fault_base"):
+        return InjectedInterrupt(at)
+    kind = (rec.script.get("fault_type") if rec is not None else None) or "runtime"
+    return {"runtime": Injected, "value": InjectedValueError, "key": InjectedKeyError}[kind](at)
 
 
 # ------------------------------------------------------------------------------------------------
@@ -648,7 +662,7 @@ def run_script(script: dict) -> dict:
                     except (Exception, InjectedInterrupt) as e:  # noqa: BLE001
                         rec.in_call = False
                         raised = True
-                        rec.log({"e": "raise", "injected": isinstance(e, (Injected, InjectedInterrupt)) or bool(rec.events and rec.events[-1].get("native")), "type": f"{type(e).__name__}: {e}"[:160]})
+                        rec.log({"e": "raise", "injected": isinstance(e, (*INJECTED_TYPES, InjectedInterrupt)) or bool(rec.events and rec.events[-1].get("native")), "type": f"{type(e).__name__}: {e}"[:160]})
                     rec.log(idle_event(rec, cal, base_threads, raised))
                     if cfg["saving"] and not raised and op[1] > 0:
                         rec.log(disk_event(rec, folder))
